@@ -240,12 +240,21 @@ def infsup_guard_sigs(stms):
 
 def multiplies_variable(stms):
     """a product, quotient, remainder or absolute value with a variable operand occurs (X = Y*3, b(2*X), |X|)"""
-    from clingo.ast import BinaryOperator, UnaryOperator
+    from clingo.ast import BinaryOperator, ComparisonOperator, UnaryOperator
 
     for s in stms:
+        # variables that carry the value of an aggregate (X = #sum{..}) are determined by it: scaling them imposes no
+        # divisibility condition on anything else, so such products are not the pattern of KF2
+        aggvars = set()
+        for b in getattr(s, "body", ()) or ():
+            if b.ast_type == ASTType.Literal and b.sign == Sign.NoSign and b.atom.ast_type == ASTType.BodyAggregate:
+                for g in (b.atom.left_guard, b.atom.right_guard):
+                    if g is not None and g.comparison == ComparisonOperator.Equal and g.term.ast_type == ASTType.Variable:
+                        aggvars.add(g.term.name)
         for n in walk(s):
             if n.ast_type == ASTType.BinaryOperation and n.operator_type in (BinaryOperator.Multiplication, BinaryOperator.Division, BinaryOperator.Modulo):
-                if any(m.ast_type == ASTType.Variable for side in (n.left, n.right) for m in walk(side)):
+                vs = [m.name for side in (n.left, n.right) for m in walk(side) if m.ast_type == ASTType.Variable]
+                if vs and not (n.operator_type == BinaryOperator.Multiplication and set(vs) <= aggvars):
                     return True
             if n.ast_type == ASTType.UnaryOperation and n.operator_type == UnaryOperator.Absolute:
                 return True
